@@ -21,6 +21,12 @@ def knobs_small():
     return nested.NKnobs(max_states=6, max_depth=3, max_branch=3, max_history=8)
 
 
+def knobs_enum():
+    # Enum states: one Enum class per sibling group; segment names are re-used on different levels so that
+    # two classes share member names; the machine's initial state is a root state
+    return nested.NKnobs(p_collide=0.35, p_deep_initial=0.0, max_states=9)
+
+
 def knobs_global():
     return nested.NKnobs(p_local=0.0, p_collide=0.0)
 
@@ -51,6 +57,8 @@ class C02(nestedcheck.NestedCheck):
     streams = (
         NStream('random', knobs=knobs, quick=(16, 60), thorough=(48, 250)),
         NStream('random-small', knobs=knobs_small, quick=(8, 60), thorough=(24, 250)),
+        NStream('enum-states', knobs=knobs_enum, quick=(8, 40), thorough=(16, 150), enum_states=True,
+                pool=('LockedHierarchicalMachine', 'HierarchicalAsyncMachine')),   # the Mermaid graph classes reject Enum children
         NStream('global-only', knobs=knobs_global, quick=(8, 50), thorough=(24, 200)),
         NStream('exhaustive<=4', enum=enum_le4, thorough=(32, 400), others=1, tiers=('thorough',)),
         NStream('5-states', enum=layer(5, 4), thorough=(64, 420), others=1, tiers=('thorough',)),
